@@ -164,31 +164,27 @@ theorem matcher_correct_permission (g : Gen) (key v : Str) (tcp : Bool) (req : R
 theorem wf_iff (i : Identity) : i.wf = true ↔ i.td ≠ [] ∧ '/' ∉ i.td ∧ '/' ∉ i.ns ∧ '/' ∉ i.sa := by
   simp [Identity.wf, and_assoc]
 
-theorem peerOK_some {req : Request} {i : Identity} (h : req.peerOK = true) (hp : req.peer = some i) :
-    (i.td ≠ [] ∧ '/' ∉ i.td ∧ '/' ∉ i.ns ∧ '/' ∉ i.sa) ∧ i.td ≠ "ns".toList ∧ i.ns ≠ "ns".toList := by
-  simp only [Request.peerOK, hp, Option.all_some, Bool.and_eq_true] at h
-  refine ⟨(wf_iff i).1 h.1.1, ?_⟩
-  simpa [Identity.nsSafe] using h.1.2
+theorem peerWF_some {req : Request} {i : Identity} (h : req.peerWF = true) (hp : req.peer = some i) :
+    i.td ≠ [] ∧ '/' ∉ i.td ∧ '/' ∉ i.ns ∧ '/' ∉ i.sa := by
+  simp only [Request.peerWF, hp, Option.all_some] at h
+  exact (wf_iff i).1 h
 
-/-- Under `peerOK` every header the request carries (pseudo-headers included) has a non-empty value. -/
-theorem lookupHeader_ne_nil {req : Request} {h : Http} (hr : req.peerOK = true) (hh : req.http = some h)
-    (name x : Str) (hl : lookupHeader name h = some x) : x.isEmpty = false := by
-  simp only [Request.peerOK, hh, Option.all_some, Bool.and_eq_true, Bool.not_eq_true', List.all_eq_true] at hr
-  obtain ⟨-, ⟨hhost, hmeth⟩, hhdr⟩ := hr
-  unfold lookupHeader at hl
-  split at hl
-  · simp only [Option.some.injEq] at hl; subst hl; exact hhost
-  · split at hl
-    · simp only [Option.some.injEq] at hl; subst hl; exact hmeth
-    · cases hf : h.headers.find? (fun e => lower e.1 == lower name) with
-      | none => simp [hf] at hl
-      | some e =>
-        simp only [hf, Option.map_some, Option.some.injEq] at hl
-        subst hl
-        exact hhdr e (List.mem_of_find?_eq_some hf)
+theorem peerNs_some {req : Request} {i : Identity} (h : req.peerNs = true) (hp : req.peer = some i) :
+    (i.td ≠ [] ∧ '/' ∉ i.td ∧ '/' ∉ i.ns ∧ '/' ∉ i.sa) ∧ i.td ≠ "ns".toList ∧ i.ns ≠ "ns".toList := by
+  simp only [Request.peerNs, hp, Option.all_some, Bool.and_eq_true] at h
+  refine ⟨(wf_iff i).1 h.1, ?_⟩
+  simpa [Identity.nsSafe] using h.2
+
+/-- Under `headerNonEmpty key` the header the key designates, when present, has a non-empty value. -/
+theorem lookupHeader_ne_nil {req : Request} {h : Http} {key : Str} (hr : headerNonEmpty key req = true)
+    (hh : req.http = some h) (name x : Str)
+    (hn : extractNameInBrackets (trimPrefix attrRequestHeader key) = some name)
+    (hl : lookupHeader name h = some x) : x.isEmpty = false := by
+  simp only [headerNonEmpty, hh, Option.all_some, hn, hl, Bool.not_eq_true'] at hr
+  exact hr
 
 theorem matcher_correct_namespace_partial (key v : Str) (tcp auth : Bool) (req : Request)
-    (hv : nsValueExact v = true) (hr : req.peerOK = true) :
+    (hv : nsValueExact v = true) (hr : req.peerNs = true) :
     PrinAtomExact .srcNamespace key v tcp auth req := by
   intro p hp
   simp only [genPrincipal, Option.some.injEq] at hp
@@ -199,7 +195,7 @@ theorem matcher_correct_namespace_partial (key v : Str) (tcp auth : Bool) (req :
   cases h : req.peer with
   | none => simp [peerName, specAtom, h]
   | some i =>
-    obtain ⟨hw, hs⟩ := peerOK_some hr h
+    obtain ⟨hw, hs⟩ := peerNs_some hr h
     simp only [peerName, h, Option.map_some, Option.any_some, evalStrM, specAtom, globForm,
       splitOn_of_not_mem '*' v hv.1, globParts]
     exact rx_ns_exact v i hv.2 hw.2.1 hw.2.2.1 hw.2.2.2 hs.1 hs.2
@@ -207,7 +203,7 @@ theorem matcher_correct_namespace_partial (key v : Str) (tcp auth : Bool) (req :
 theorem splitOn_nil (c : Char) : splitOn c [] = [[]] := rfl
 
 theorem matcher_correct_namespace_forms (key v : Str) (tcp auth : Bool) (req : Request)
-    (hv : nsValueOK v = true) (hr : req.peerOK = true) :
+    (hv : nsValueOK v = true) (hr : req.peerNs = true) :
     PrinAtomExact .srcNamespace key v tcp auth req := by
   intro p hp
   simp only [genPrincipal, Option.some.injEq] at hp
@@ -220,7 +216,7 @@ theorem matcher_correct_namespace_forms (key v : Str) (tcp auth : Bool) (req : R
   cases h : req.peer with
   | none => simp [peerName, specAtom, h]
   | some i =>
-    obtain ⟨hw, hs⟩ := peerOK_some hr h
+    obtain ⟨hw, hs⟩ := peerNs_some hr h
     simp only [peerName, h, Option.map_some, Option.any_some, evalStrM, specAtom, globForm]
     rcases hforms with (hno | ⟨hsuf, hp⟩) | ⟨⟨⟨⟨hpre, hq⟩, hqne⟩, hqa⟩, hqsa⟩
     · rw [splitOn_of_not_mem '*' v hno]
@@ -250,7 +246,7 @@ theorem matcher_correct_namespace_forms (key v : Str) (tcp auth : Bool) (req : R
       simp [hasPrefix, hasSuffix]
 
 theorem matcher_correct_serviceaccount (pns key v : Str) (tcp auth : Bool) (req : Request)
-    (hv : pns.contains '/' = false) (hr : req.peerOK = true) :
+    (hv : pns.contains '/' = false) (hr : req.peerWF = true) :
     PrinAtomExact (.srcServiceAccount pns) key v tcp auth req := by
   intro p hp
   simp only [genPrincipal, Option.some.injEq] at hp
@@ -264,12 +260,12 @@ theorem matcher_correct_serviceaccount (pns key v : Str) (tcp auth : Bool) (req 
   cases h : req.peer with
   | none => simp [peerName, specAtom, h]
   | some i =>
-    obtain ⟨hw, -⟩ := peerOK_some hr h
+    have hw := peerWF_some hr h
     simp only [peerName, h, Option.map_some, Option.any_some, evalStrM, specAtom]
     exact rx_sa _ _ i hNS hw.1 hw.2.1 hw.2.2.1 hw.2.2.2
 
 theorem matcher_correct_trustdomain (key v : Str) (tcp auth : Bool) (req : Request)
-    (hv : v.contains '/' = false) (hr : req.peerOK = true) :
+    (hv : v.contains '/' = false) (hr : req.peerWF = true) :
     PrinAtomExact .srcTrustDomain key v tcp auth req := by
   intro p hp
   simp only [genPrincipal, Option.some.injEq] at hp
@@ -279,7 +275,7 @@ theorem matcher_correct_trustdomain (key v : Str) (tcp auth : Bool) (req : Reque
   cases h : req.peer with
   | none => simp [peerName, specAtom, h]
   | some i =>
-    obtain ⟨hw, -⟩ := peerOK_some hr h
+    have hw := peerWF_some hr h
     simp only [peerName, h, Option.map_some, Option.any_some, specAtom, trustDomainMatcher, tdForm]
     by_cases h1 : v = star
     · simp only [h1, if_true, evalStrM, Bool.false_eq_true, if_false]
@@ -298,17 +294,21 @@ theorem matcher_correct_trustdomain (key v : Str) (tcp auth : Bool) (req : Reque
         exact rx_td_glob a b i ha hb hw.2.1
 
 /-- Every principal generator of the non-extended kind (source.ip, remote.ip, namespaces, service
-    accounts, trust domains, principals, request headers) is exact under `prinValueOK` /
-    `peerOK`. -/
+    accounts, trust domains, principals, request headers) is exact under `prinValueOK`, a condition
+    on the value and on the part of the request this very matcher reads. -/
 theorem matcher_correct_principals (g : Gen) (key v : Str) (tcp auth : Bool) (req : Request)
-    (hv : prinValueOK g v = true) (hr : req.peerOK = true) :
+    (hv : prinValueOK g key v req = true) :
     PrinAtomExact g key v tcp auth req := by
   cases g
-  case srcNamespace => exact matcher_correct_namespace_forms key v tcp auth req hv hr
+  case srcNamespace =>
+    simp only [prinValueOK, Bool.and_eq_true] at hv
+    exact matcher_correct_namespace_forms key v tcp auth req hv.1 hv.2
   case srcServiceAccount pns =>
-    exact matcher_correct_serviceaccount pns key v tcp auth req (by simpa [prinValueOK] using hv) hr
+    simp only [prinValueOK, Bool.and_eq_true, Bool.not_eq_true'] at hv
+    exact matcher_correct_serviceaccount pns key v tcp auth req hv.1 hv.2
   case srcTrustDomain =>
-    exact matcher_correct_trustdomain key v tcp auth req (by simpa [prinValueOK] using hv) hr
+    simp only [prinValueOK, Bool.and_eq_true, Bool.not_eq_true'] at hv
+    exact matcher_correct_trustdomain key v tcp auth req hv.1 hv.2
   case srcPrincipal =>
     intro p hp
     simp only [genPrincipal, Option.some.injEq] at hp
@@ -352,7 +352,9 @@ theorem matcher_correct_principals (g : Gen) (key v : Str) (tcp auth : Bool) (re
         | some x =>
           simp only [Option.any_some]
           by_cases hv' : v = star
-          · have := lookupHeader_ne_nil hr hh name x hl
+          · have hr : headerNonEmpty key req = true := by
+              simpa [prinValueOK, hv'] using hv
+            have := lookupHeader_ne_nil hr hh name x hn hl
             simp [hv', hdrForm, this]
           · simp [hv']
   all_goals (intro p hp; simp only [genPrincipal] at hp; cases hp)
@@ -362,7 +364,7 @@ theorem matcher_correct_principals (g : Gen) (key v : Str) (tcp auth : Bool) (re
 
 /-- Full-strength statement for namespaces: every value (wildcards anywhere) is matched exactly. -/
 def NamespaceMatcherExact : Prop :=
-  ∀ (v : Str) (auth : Bool) (req : Request), req.peerOK = true →
+  ∀ (v : Str) (auth : Bool) (req : Request), req.peerNs = true →
     PrinAtomExact .srcNamespace [] v false auth req
 
 def nsWitnessReq : Request :=
@@ -395,7 +397,7 @@ theorem matcher_namespace_anchor_witness :
     nsValueOK "sa".toList = true ∧
     (genPrincipal .srcNamespace [] "sa".toList false true).map (evalM · nsWitnessReq2) = some true ∧
     specAtom .srcNamespace [] "sa".toList nsWitnessReq2 = false ∧
-    nsWitnessReq2.peerOK = false := by decide
+    nsWitnessReq2.peerNs = false := by decide
 
 /-- What does hold for every namespace value: the generated matcher never misses a namespace the
     value denotes (so DENY `namespaces` / ALLOW `notNamespaces` stay safe). -/
